@@ -102,6 +102,16 @@ CLAIMED = {
          "script order' is not separately proved.",
     technique="constant evaluation of the command tables vs a reference + CFG dominance with edge facts on the three gates + ownership of the registry",
     ref="4/C07"),
+ "C13": dict(
+    text="Effect analysis: H1 inventory of every module-level/class-level mutable object of the package (35+) and of every statement that can write "
+         "it after import (rebinding, mutators, subscript stores, aliases followed through parameters): the only writable shared state is the "
+         "extension registry (writers: parser reset, RequireCommand.complete_cb) and the command namespace (add_commands); H2 every Parser attribute "
+         "a token handler writes is re-initialised to an empty value by the reset, the reset dominates the token loop, the lexer re-initialises "
+         "pos/text; H3 the reset empties the class-level registry on every path; H4 no call from factory.py can read the registry (each call into "
+         "the lookup / interpreter disables the check or is statically extension-free, with flow-sensitive typing of the receiver). Substantially "
+         "decides history independence for all script sequences.",
+    technique="who-may-write effect analysis with alias propagation + CFG dominance + table-based discharge of factory call sites",
+    ref="4/C13"),
 }
 NA = {}
 
